@@ -205,7 +205,8 @@ class ZorgFileCompiler(ZorgFileListener):
     ) -> None:  # noqa: D102
         words = ctx.getText().split(" ")
         if len(words) == 1:
-            key, value = words[0][1:-1].split("::")
+            # The value may itself contain '::' (e.g. '[a::b::c]').
+            key, value = words[0][1:-1].split("::", maxsplit=1)
         else:
             key = words.pop(0)[1:-2]
             value = " ".join(words)[:-1]
